@@ -176,6 +176,12 @@ Theorem C27_u256_pow_correct : forall a e, e < 2 ^ 32 ->
 Proof. exact u256_pow_correct. Qed.
 Print Assumptions C27_u256_pow_correct.
 
+Theorem C27_u256_log2_correct : forall a, a < 2 ^ 256 ->
+  if a =? 0 then u256_log2 default_flags a = Rev FAILED_ASSERT_SIGNAL
+  else exists r, u256_log2 default_flags a = Ret r /\ 2 ^ r <= a < 2 ^ (r + 1).
+Proof. exact u256_log2_correct. Qed.
+Print Assumptions C27_u256_log2_correct.
+
 Theorem C27_u128_log2_correct : forall a, wf a ->
   if val a =? 0 then u128_log2 default_flags a = Rev FAILED_ASSERT_SIGNAL
   else exists r, u128_log2 default_flags a = Ret r /\ wf r /\
